@@ -233,7 +233,21 @@ func (r *Run) writeEvidence() error {
 			files[f] = hashFile(f)
 		}
 	}
+	type slow struct {
+		Name   string `json:"obligation"`
+		Ms     int64  `json:"solver_ms"`
+		Solver string `json:"solver"`
+	}
+	var slowest []slow
+	{
+		byMs := append([]*Obligation(nil), r.obls...)
+		sort.Slice(byMs, func(i, j int) bool { return byMs[i].Millis > byMs[j].Millis })
+		for i := 0; i < len(byMs) && i < 8; i++ {
+			slowest = append(slowest, slow{byMs[i].Name, byMs[i].Millis, byMs[i].Solver})
+		}
+	}
 	cov := map[string]any{
+		"slowest_obligations":      slowest,
 		"obligations":              total,
 		"discharged":               discharged,
 		"checker_cmd":              fmt.Sprintf("/verif/bin/gocv verify --property %s --tier %s --repo %s", r.prop.ID, r.tier, r.repo),
